@@ -116,6 +116,71 @@ func runC05(c map[string]interface{}) []Event {
 			e["out2"] = "ok"
 		})
 		return []Event{e}
+	case "deep": // a leaf wrapped in d one-member collections
+		var leaf geom.Geom = decGeom(c["leaf"], bitsDec)
+		d := num(c["d"])
+		var order binary.ByteOrder = binary.BigEndian
+		if num(c["bo"]) == 1 {
+			order = binary.LittleEndian
+		}
+		e := Event{"ev": "deep", "bytes": []interface{}{}, "hexsame": false, "err": "", "depths": []interface{}{-1, -1, -1},
+			"leaves": []interface{}{noGeom, noGeom, noGeom}}
+		e["out"] = safely(func() {
+			g := leaf
+			for i := 0; i < d; i++ {
+				g = geom.GeometryCollection{g}
+			}
+			b, err := wkb.Encode(g, order)
+			if err != nil {
+				e["err"] = "encode: " + err.Error()
+				return
+			}
+			e["bytes"] = bytesToJSON(b)
+			h, err := hex.Encode(g, order)
+			if err != nil {
+				e["err"] = "hex encode: " + err.Error()
+				return
+			}
+			const digits = "0123456789abcdef"
+			toHex := func(b []byte) string {
+				hx := make([]byte, 0, 2*len(b))
+				for _, x := range b {
+					hx = append(hx, digits[x>>4], digits[x&15])
+				}
+				return string(hx)
+			}
+			e["hexsame"] = h == toHex(b)
+			peel := func(g geom.Geom) (int, interface{}) {
+				n := 0
+				for {
+					gc, ok := g.(geom.GeometryCollection)
+					if !ok || len(gc) != 1 {
+						break
+					}
+					g = gc[0]
+					n++
+				}
+				return n, encGeom(g, bitsEnc)
+			}
+			depths, leaves := []interface{}{-1, -1, -1}, []interface{}{noGeom, noGeom, noGeom}
+			mixed := jsonToBytes(c["bytes"])
+			for i, dec := range []func() (geom.Geom, error){
+				func() (geom.Geom, error) { return wkb.Decode(b) },
+				func() (geom.Geom, error) { return wkb.Decode(mixed) },
+				func() (geom.Geom, error) { return hex.Decode(toHex(mixed)) },
+			} {
+				g2, err := dec()
+				if err != nil {
+					e["err"] = "decode: " + err.Error()
+					continue
+				}
+				if g2 != nil {
+					depths[i], leaves[i] = peel(g2)
+				}
+			}
+			e["depths"], e["leaves"] = depths, leaves
+		})
+		return []Event{e}
 	case "hexstr": // an arbitrary (mostly non-hex) string handed to the hex decoder
 		var sb []byte
 		for _, ch := range arr(c["chars"]) {
